@@ -25,7 +25,7 @@ from translate import period_ds as D
 
 YEARS = list(range(P.Y0, P.Y1 + 1))
 LOW_YEAR_KEY = "year-below-1000:leading-zeros-dropped"
-GREG_KEY = "render:sdmx_gregorian:inexpressible-indicator:raw-duckdb-error"
+GREG_KEY = "regression:render:sdmx_gregorian:inexpressible-indicator:raw-duckdb-error"   # repaired in /repo: not a known finding
 
 
 def split_rows(rows):
@@ -83,7 +83,7 @@ def tier_years(ctx, n_quick: int) -> List[int]:
 
 def x_strings(ctx) -> None:
     t0 = time.time()
-    years = tier_years(ctx, 22)
+    years = tier_years(ctx, 8)
     ctx.cov["x_string_years"] = len(years)
     P.load_periods(years)
     spec, sql = P.sql_string_rows()
@@ -145,7 +145,7 @@ def x_strings(ctx) -> None:
 
 def x_sampled_years(ctx) -> None:
     """years of 0001..9999 outside 1900-2100, compared POINTWISE (this is also the path that localises fingerprint mismatches)"""
-    n = 200 if ctx.tier == "thorough" else 5
+    n = 200 if ctx.tier == "thorough" else 3
     ys = sorted(set(([1, 4, 999, 1000, 1600, 9999] if ctx.tier == "thorough" else [4, 999, 1000, 9999])
                     + [ctx.rng.randint(1, 999) for _ in range(max(1, n // 10))]
                     + [ctx.rng.randint(1000, 9999) for _ in range(n)]))
@@ -249,7 +249,7 @@ def run_column(values: List[str], fmt: str, csv: bool = False) -> Dict[str, Any]
 
 def k_run_roundtrip(ctx) -> None:
     t0 = time.time()
-    ys = tier_years(ctx, 18)
+    ys = tier_years(ctx, 6)
     P.load_periods(ys)
     spec, sql = P.sql_string_rows()     # rows: [canonical, vtl, reporting, gregorian|~NONE, natural, spellings...]
     per = [(k, num, r) for k in sorted(spec) for num, r in enumerate(spec[k], 1)]
@@ -345,7 +345,7 @@ def k_corpus(ctx) -> None:
 
 
 def run(ctx):
-    ctx.cov["rule"] = ("exhaustive on its domain: every valid period of the years taken (thorough: all of 1900-2100; quick: 28 of them) x (canonical form, parse, 4 renderings, every documented spelling) on the SQL "
+    ctx.cov["rule"] = ("exhaustive on its domain: every valid period of the years taken (thorough: all of 1900-2100; quick: 14 of them) x (canonical form, parse, 4 renderings, every documented spelling) on the SQL "
                        "side and the Python side; sampled years of 0001-9999 pointwise; run()-level round trips; distinct = shard (indicator, year) "
                        "/ run; evaluations = strings compared")
     ctx.cov["exhaustive"] = ctx.tier == "thorough"
